@@ -120,22 +120,66 @@ def parse_dynamic_total(m: Model, r: Report, rid: str) -> None:
             "round-trip AssertionError) must fall back to RawRequest, otherwise the server raises and drops the connection", loc=pd.loc)
 
 
-def busy_last_attempt(m: Model, r: Report, rid: str) -> None:
-    """UDSClient.request_unsafe: a busyRepeatRequest answer on the last attempt is returned to the caller (it is an answer of an
-    implemented service), it is not turned into a missing response."""
+def busy_branch(m: Model):
+    """Decision facts of the busyRepeatRequest branch of UDSClient.request_unsafe, from path conditions (any nesting / guard-clause / inverted
+    spelling): returns (fn, returns, continues, iv, mr) where returns / continues are [(stmt, literals)] reached only when the reply's code equals
+    busyRepeatRequest; None when the retry loop or its bound cannot be identified."""
     from sa.model import walk_no_nested
+    from sa.util import path_condition, norm_conds
     fn = m.require_function("gallia.services.uds.core.client.UDSClient.request_unsafe")
-    busy = [n for n in walk_no_nested(fn.node) if isinstance(n, ast.If) and "busyRepeatRequest" in ast.unparse(n.test)]
-    fors = [n for n in walk_no_nested(fn.node) if isinstance(n, ast.For)]
-    ok = False
-    if len(busy) == 1 and len(fors) == 1 and busy[0].body and isinstance(busy[0].body[0], ast.If):
-        inner = busy[0].body[0]
-        iv = ast.unparse(fors[0].target)
-        t = inner.test
-        ok = isinstance(t, ast.Compare) and len(t.ops) == 1 and isinstance(t.ops[0], (ast.GtE, ast.Eq)) and ast.unparse(t.left) == iv and \
-            inner.body and isinstance(inner.body[0], ast.Return) and isinstance(inner.body[0].value, ast.Name)
-    r.check(ok, rid, f"{fn.qualname}#busy-last-attempt", "busyRepeatRequest on the last attempt must be returned to the caller "
-            "(scanners classify it as 'the service answers'; as a MissingResponse it is logged as a timeout and the service is not reported)", loc=fn.loc)
+    fors = [n for n in walk_no_nested(fn.node) if isinstance(n, ast.For) and isinstance(n.target, ast.Name) and isinstance(n.iter, ast.Call) and ast.unparse(n.iter.func) == "range"]
+    if len(fors) != 1:
+        return None
+    iv = fors[0].target.id
+    bound = fors[0].iter.args[-1] if len(fors[0].iter.args) <= 2 else None
+    # range(max_retry + 1): the name of the retry bound
+    mr = next((x.id for x in ast.walk(bound) if isinstance(x, ast.Name)), None) if bound is not None else None
+    if mr is None:
+        return None
+    rets, conts = [], []
+    for n in ast.walk(fors[0]):
+        if isinstance(n, (ast.Return, ast.Continue)):
+            lits = norm_conds(path_condition(fn.node, n))
+            if any("busyRepeatRequest" in t and "==" in t and v for t, v in lits):
+                (rets if isinstance(n, ast.Return) else conts).append((n, lits))
+    return fn, rets, conts, iv, mr
+
+
+def _attempt_cases(fn, stmt, iv: str, mr: str, expect) -> list[str]:
+    """Rows (i, max_retry) with 0 <= i <= max_retry <= 2 on which stmt is reached although expect says no, or the other way round (only the
+    tests that read i / max_retry take part)."""
+    from sa.util import path_condition
+    from sa import miniterp
+    conds = [(t, p) for t, p in path_condition(fn.node, stmt) if {x.id for x in ast.walk(t) if isinstance(x, ast.Name)} & {iv, mr}]
+    bad = []
+    for b in range(3):
+        for a in range(b + 1):
+            env = {iv: a, mr: b}
+            taken = all(bool(miniterp.eval_expr(t, dict(env))) == p for t, p in conds)
+            if taken != bool(expect(env)):
+                bad.append(f"{iv}={a}, {mr}={b} -> {'taken' if taken else 'skipped'}")
+    return bad
+
+
+def busy_last_attempt(m: Model, r: Report, rid: str, with_retry: bool = False) -> None:
+    """UDSClient.request_unsafe: a busyRepeatRequest answer on the last attempt is returned to the caller (it is an answer of an
+    implemented service), it is not turned into a missing response; before the last attempt it starts the next one."""
+    fn = m.require_function("gallia.services.uds.core.client.UDSClient.request_unsafe")
+    facts = busy_branch(m)
+    if facts is None:
+        r.unrecognised(rid, f"{fn.qualname}#busy-last-attempt", "retry loop `for i in range(<bound>)` not identified", fn.loc)
+        return
+    fn, rets, conts, iv, mr = facts
+    # within the loop i <= max_retry; the reply must be returned exactly on the last attempt (i == max_retry)
+    good = [n for n, _ in rets if isinstance(n.value, ast.Name) and not _attempt_cases(fn, n, iv, mr, lambda a: a[iv] >= a[mr])]
+    r.check(bool(good), rid, f"{fn.qualname}#busy-last-attempt", "busyRepeatRequest on the last attempt must be returned to the caller "
+            "(scanners classify it as 'the service answers'; as a MissingResponse it is logged as a timeout and the service is not reported); "
+            f"returns under the busy condition: {[ast.unparse(n) for n, _ in rets]}", loc=fn.loc)
+    if with_retry:
+        goodc = [n for n, _ in conts if not _attempt_cases(fn, n, iv, mr, lambda a: a[iv] < a[mr])]
+        r.check(bool(goodc), rid, f"{fn.qualname}#busy-retries", "busyRepeatRequest before the last attempt must start the next attempt", loc=fn.loc)
+        neg = all(any("isinstance(" in t and "NegativeResponse" in t and v for t, v in lits) for _, lits in rets + conts)
+        r.check(neg and bool(rets + conts), rid, f"{fn.qualname}#busy-condition", "the busy branch must be an equality test on the code of a negative response", loc=fn.loc)
 
 
 def iso_tables(m: Model, r: Report, rid: str, what: str = "both") -> None:
